@@ -324,6 +324,10 @@ fn corrupt(rng: &mut Rng, text: &str) -> Vec<u8> {
     bytes
 }
 
+pub fn corrupt_pub(rng: &mut Rng, text: &str) -> Vec<u8> {
+    corrupt(rng, text)
+}
+
 pub fn bytes_case(rng: &mut Rng, k: u64) -> String {
     let (kind, bytes): (&str, Vec<u8>) = match rng.below(10) {
         0 => ("noise", (0..rng.below(400)).map(|_| rng.below(256) as u8).collect()),
